@@ -166,7 +166,8 @@ PROPS = {
         "rule": DISTR_RULE,
         "partial": ["the hypotheses of the history theorem that are not consequences of validation are the two known-finding classes (sources in order = not K1, "
                     "no alias of the main account = not K2) and the store-key discipline (keys determine ids, computed by the harness from the real key strings); "
-                    "external inflows are modelled as non-negative coins arriving between blocks"],
+                    "external inflows are modelled as non-negative coins arriving between blocks; that no transaction can credit the main account in the middle of a block "
+                    "(the application's blocked-address list) is checked on the implementation only (app runs: the module's invariants on the committed state after every block)"],
         "level_text": "Coq theorems over the executable distributor model. History level (C03_books_equal_balance_after_every_block, Books.history_keeps_books): "
                       "for every world satisfying the invariant (well-formed non-negative remains and balances, states stored in key order under their account's key, "
                       "share fractions adding up to at most 1, MAIN first among the sources of its sub-distributor, no alias of the main account, books not above the "
